@@ -1,10 +1,12 @@
 import VhostModel.Drv.Valid
+import VhostModel.Drv.Srv
 /-! Model driver: one scenario per input line, one prediction per output line. -/
 
 def dispatch (line : String) : String :=
   let toks := (line.trimAscii.toString.splitOn " ").filter (· ≠ "")
   match toks with
   | "valid" :: _ => Drv.Valid.run toks
+  | "srv" :: _ => Drv.Srv.run toks
   | _ => "bad-family"
 
 partial def loop (h : IO.FS.Stream) (out : IO.FS.Stream) : IO Unit := do
